@@ -1258,35 +1258,50 @@ func E9HoleParity(c *core.Ctx, r *core.Report) {
 
 // E9WindingsSync: both end points of a result edge carry the same result winding number.
 func E9WindingsSync(c *core.Ctx, r *core.Report) {
-	r.Rule("E9.windings-sync", "in bentleyOttmann's contour builder the result winding number of an edge is kept on both of its end points: whenever X.resultWindings is assigned in a statement list, a later statement of the same list copies it to X.other.resultWindings, unconditionally. The depth of a new contour is read from the left end point of the edge below it, which for edges walked right-to-left is the *other* end point; a conditional copy leaves those at 0 and the contour above is built as an outer contour")
+	r.Rule("E9.windings-sync", "in bentleyOttmann's contour builder the result winding number of an edge is kept on both of its end points: whenever X.resultWindings is assigned, a later statement of the same statement list, or of a statement list that encloses it within the same loop body, copies it to X.other.resultWindings — unconditionally with respect to the assignment (a copy inside another branch does not count). The depth of a new contour is read from the left end point of the edge below it, which for edges walked right-to-left is the *other* end point; a conditional copy leaves those at 0 and the contour above is built as an outer contour")
 	p := c.MustPkg("")
-	info := p.TypesInfo
 	fd := core.MustFuncDecl(p, "bentleyOttmann")
 	r.Func("canvas.bentleyOttmann")
 	n := 0
-	_ = info
+	var stack []ast.Node
 	ast.Inspect(fd.Body, func(m ast.Node) bool {
-		bl, ok := m.(*ast.BlockStmt)
-		if !ok {
+		if m == nil {
+			stack = stack[:len(stack)-1]
 			return true
 		}
-		for i, st := range bl.List {
-			as, ok := st.(*ast.AssignStmt)
-			if !ok || len(as.Lhs) != 1 || as.Tok != token.ASSIGN {
+		stack = append(stack, m)
+		as, ok := m.(*ast.AssignStmt)
+		if !ok || len(as.Lhs) != 1 || as.Tok != token.ASSIGN {
+			return true
+		}
+		sel, ok := as.Lhs[0].(*ast.SelectorExpr)
+		if !ok || sel.Sel.Name != "resultWindings" {
+			return true
+		}
+		base := types.ExprString(sel.X)
+		if strings.HasSuffix(base, ".other") {
+			return true
+		}
+		n++
+		key := fmt.Sprintf("canvas.bentleyOttmann|result windings assignment #%d|copied to the other end point", n)
+		synced := false
+		// walk outwards through the enclosing statement lists up to the loop body
+		inner := ast.Node(as)
+		for i := len(stack) - 2; i >= 0 && !synced; i-- {
+			var list []ast.Stmt
+			switch b := stack[i].(type) {
+			case *ast.BlockStmt:
+				list = b.List
+			case *ast.CaseClause:
+				list = b.Body
+			case *ast.FuncLit:
+				i = -1
 				continue
 			}
-			sel, ok := as.Lhs[0].(*ast.SelectorExpr)
-			if !ok || sel.Sel.Name != "resultWindings" {
-				continue
-			}
-			base := types.ExprString(sel.X)
-			if strings.HasSuffix(base, ".other") {
-				continue
-			}
-			n++
-			key := fmt.Sprintf("canvas.bentleyOttmann|result windings assignment #%d|copied to the other end point", n)
-			synced := false
-			for _, later := range bl.List[i+1:] {
+			for _, later := range list {
+				if later.Pos() <= inner.Pos() {
+					continue
+				}
 				a2, ok := later.(*ast.AssignStmt)
 				if !ok || len(a2.Lhs) != 1 || len(a2.Rhs) != 1 {
 					continue
@@ -1295,11 +1310,20 @@ func E9WindingsSync(c *core.Ctx, r *core.Report) {
 					synced = true
 				}
 			}
-			if synced {
-				r.OK("E9.windings-sync", key, c.Pos(as.Pos()), "")
-			} else {
-				r.Fail("E9.windings-sync", key, c.Pos(as.Pos()), fmt.Sprintf("`%s` is not followed, in the same statement list, by `%s.other.resultWindings = %s.resultWindings`: the other end point keeps a stale winding number", c.Src(as), base, base))
+			if list != nil {
+				inner = stack[i]
 			}
+			if i > 0 {
+				switch stack[i-1].(type) {
+				case *ast.ForStmt, *ast.RangeStmt:
+					i = -1 // the body of the enclosing loop is the outermost list considered
+				}
+			}
+		}
+		if synced {
+			r.OK("E9.windings-sync", key, c.Pos(as.Pos()), "")
+		} else {
+			r.Fail("E9.windings-sync", key, c.Pos(as.Pos()), fmt.Sprintf("`%s` is not followed, in its statement list or an enclosing one of the same loop body, by `%s.other.resultWindings = %s.resultWindings`: the other end point keeps a stale winding number", c.Src(as), base, base))
 		}
 		return true
 	})
@@ -3432,4 +3456,225 @@ func E9InflectionAcrossLine(c *core.Ctx, r *core.Report) {
 	} else {
 		r.Fail("E9.inflection-across-line", key, c.Pos(guard.Pos()), fmt.Sprintf("the touch flag is cleared under `%s`; the distance to the line has a triple root — the curve crosses — when `Equal(%s, 0.0)`: the second derivative need only have no component across the line, it does not vanish at the inflection of an ordinary cubic. With the stronger test a cubic crossing the ray at its inflection is a touch, and a point inside gets winding number 0", types.ExprString(guard.Cond), want))
 	}
+}
+
+// E9DepthDerivedAfterRead: what is recorded on a result edge is derived from the depth after it was read.
+func E9DepthDerivedAfterRead(c *core.Ctx, r *core.Report) {
+	r.Rule("E9.depth-derived-after-read", "the contour builder of bentleyOttmann starts a contour with a depth variable at 0, reads it from the nearest result edge below (`w = X.resultWindings`) and records on every edge of the new contour the depth below it, or that plus one on the edges that have the contour's interior above them. Every local that a right-hand side of a `.resultWindings` assignment mentions and that is itself computed from the depth variable gets that value after the statement that reads the depth. A helper computed before the read (`above := w; above++` hoisted to the top) is always 1: right at depth 0, of the right parity at depth 2, but a hole's bottom edge records 1 instead of 2 and an island inside the hole is taken for a hole and reversed")
+	p := c.MustPkg("")
+	info := p.TypesInfo
+	fd := core.MustFuncDecl(p, "bentleyOttmann")
+	r.Func("canvas.bentleyOttmann")
+	// the depth read
+	var depth types.Object
+	var readPos token.Pos
+	ast.Inspect(fd.Body, func(m ast.Node) bool {
+		as, ok := m.(*ast.AssignStmt)
+		if !ok || len(as.Lhs) != 1 || len(as.Rhs) != 1 {
+			return true
+		}
+		lid, ok := as.Lhs[0].(*ast.Ident)
+		if !ok {
+			return true
+		}
+		if se, ok := core.Unparen(as.Rhs[0]).(*ast.SelectorExpr); ok && se.Sel.Name == "resultWindings" && depth == nil {
+			depth, readPos = core.ObjOf(info, lid), as.Pos()
+		}
+		return true
+	})
+	if depth == nil {
+		r.Fail("E9.depth-derived-after-read", "canvas.bentleyOttmann|depth read", c.Pos(fd.Pos()), "the statement that reads the depth of a new contour from a result edge (`w = X.resultWindings`) was not found")
+		return
+	}
+	mentions := func(e ast.Node, o types.Object) bool {
+		hit := false
+		ast.Inspect(e, func(m ast.Node) bool {
+			if id, ok := m.(*ast.Ident); ok && core.ObjOf(info, id) == o {
+				hit = true
+			}
+			return !hit
+		})
+		return hit
+	}
+	// definitions of locals in terms of the depth
+	type def struct {
+		pos token.Pos
+		src string
+	}
+	derived := map[types.Object][]def{}
+	ast.Inspect(fd.Body, func(m ast.Node) bool {
+		as, ok := m.(*ast.AssignStmt)
+		if !ok || len(as.Lhs) != len(as.Rhs) {
+			return true
+		}
+		for i, l := range as.Lhs {
+			lid, ok := l.(*ast.Ident)
+			if !ok {
+				continue
+			}
+			o := core.ObjOf(info, lid)
+			if o != nil && o != depth && mentions(as.Rhs[i], depth) {
+				derived[o] = append(derived[o], def{as.Pos(), c.Src(as)})
+			}
+		}
+		return true
+	})
+	n := 0
+	ast.Inspect(fd.Body, func(m ast.Node) bool {
+		as, ok := m.(*ast.AssignStmt)
+		if !ok || len(as.Lhs) != 1 || len(as.Rhs) != 1 {
+			return true
+		}
+		sel, ok := as.Lhs[0].(*ast.SelectorExpr)
+		if !ok || sel.Sel.Name != "resultWindings" {
+			return true
+		}
+		if rs, ok := core.Unparen(as.Rhs[0]).(*ast.SelectorExpr); ok && rs.Sel.Name == "resultWindings" {
+			return true // the copy to the other end point
+		}
+		n++
+		key := fmt.Sprintf("canvas.bentleyOttmann|recorded depth #%d is derived from the depth as read", n)
+		bad := ""
+		ast.Inspect(as.Rhs[0], func(k ast.Node) bool {
+			id, ok := k.(*ast.Ident)
+			if !ok {
+				return true
+			}
+			for _, d := range derived[core.ObjOf(info, id)] {
+				if d.pos < readPos && as.Pos() > readPos {
+					bad = fmt.Sprintf("`%s` (computed by `%s`, before the depth is read)", id.Name, d.src)
+				}
+			}
+			return true
+		})
+		if bad == "" {
+			r.OK("E9.depth-derived-after-read", key, c.Pos(as.Pos()), c.Src(as))
+		} else {
+			r.Fail("E9.depth-derived-after-read", key, c.Pos(as.Pos()), fmt.Sprintf("`%s` records %s: it was derived from the depth variable while that still held its initial 0, so every edge with the interior above it records 1 whatever the nesting depth. A hole's bottom edge then carries 1 instead of 2, and a contour that reads its depth from it (an island in the hole) is built as a hole: reversed, winding −1", c.Src(as), bad))
+		}
+		return true
+	})
+	r.Count("E9.recorded-depths", n)
+	r.Floor("E9.recorded-depths", 2)
+}
+
+// E9AdjacentAlwaysTested: segments that become neighbours in the sweep status are tested against each other whatever they belong to.
+func E9AdjacentAlwaysTested(c *core.Ctx, r *core.Report) {
+	r.Rule("E9.adjacent-always-tested", "Bentley–Ottmann finds every crossing because two segments are tested against each other at the moment they become neighbours in the status: when a segment enters (against the one below and the one above) and when a segment leaves (its two neighbours against each other). In the main sweep of bentleyOttmann — the branches on the current event being a left or a right end point — every call of addIntersections is reached under nothing but that branch and nil tests of the neighbours: no condition on the operation, on the operand a segment belongs to, or on anything else. Two segments of one operand that were separated by a segment of the other operand when the later one entered meet only when the separator leaves; skipping the test there loses their crossing and the operand's contours come out unresolved")
+	p := c.MustPkg("")
+	info := p.TypesInfo
+	fd := core.MustFuncDecl(p, "bentleyOttmann")
+	r.Func("canvas.bentleyOttmann")
+	type atom struct {
+		e   ast.Expr
+		pos bool
+	}
+	var split func(e ast.Expr, pos bool, out *[]atom)
+	split = func(e ast.Expr, pos bool, out *[]atom) {
+		e = core.Unparen(e)
+		if u, ok := e.(*ast.UnaryExpr); ok && u.Op == token.NOT {
+			split(u.X, !pos, out)
+			return
+		}
+		if b, ok := e.(*ast.BinaryExpr); ok && ((b.Op == token.LAND && pos) || (b.Op == token.LOR && !pos)) {
+			split(b.X, pos, out)
+			split(b.Y, pos, out)
+			return
+		}
+		*out = append(*out, atom{e, pos})
+	}
+	isNilTest := func(a atom) bool {
+		b, ok := a.e.(*ast.BinaryExpr)
+		if !ok || (b.Op != token.EQL && b.Op != token.NEQ) {
+			return false
+		}
+		for _, side := range []ast.Expr{b.X, b.Y} {
+			if id, ok := core.Unparen(side).(*ast.Ident); ok && id.Name == "nil" {
+				return true
+			}
+		}
+		return false
+	}
+	isLeftTest := func(a atom) bool {
+		se, ok := a.e.(*ast.SelectorExpr)
+		return ok && se.Sel.Name == "left"
+	}
+	n := 0
+	var walk func(n ast.Node, conds []atom)
+	visitCalls := func(st ast.Node, conds []atom) {
+		ast.Inspect(st, func(m ast.Node) bool {
+			switch x := m.(type) {
+			case *ast.IfStmt, *ast.BlockStmt, *ast.ForStmt, *ast.RangeStmt, *ast.SwitchStmt, *ast.FuncLit:
+				if m != st {
+					return false
+				}
+			case *ast.CallExpr:
+				if f := core.CalleeOf(info, x); f != nil && f.Name() == "addIntersections" {
+					main := false
+					for _, a := range conds {
+						if isLeftTest(a) {
+							main = true
+						}
+					}
+					if !main {
+						return true
+					}
+					n++
+					key := fmt.Sprintf("canvas.bentleyOttmann|neighbour test #%d of the main sweep is unconditional", n)
+					bad := ""
+					for _, a := range conds {
+						if !isLeftTest(a) && !isNilTest(a) {
+							neg := ""
+							if !a.pos {
+								neg = "not "
+							}
+							bad = neg + "`" + types.ExprString(a.e) + "`"
+						}
+					}
+					if bad == "" {
+						r.OK("E9.adjacent-always-tested", key, c.Pos(x.Pos()), "")
+					} else {
+						r.Fail("E9.adjacent-always-tested", key, c.Pos(x.Pos()), fmt.Sprintf("`%s` runs only when %s holds: segments that become neighbours here are otherwise never tested against each other (they were not neighbours when they entered the status if a third segment lay between them), their crossing is lost, and the contours of the result cross each other or the operation panics", types.ExprString(x), bad))
+					}
+				}
+			}
+			return true
+		})
+	}
+	walk = func(nd ast.Node, conds []atom) {
+		switch x := nd.(type) {
+		case *ast.BlockStmt:
+			for _, s := range x.List {
+				walk(s, conds)
+			}
+		case *ast.IfStmt:
+			var t, f []atom
+			t = append(t, conds...)
+			f = append(f, conds...)
+			split(x.Cond, true, &t)
+			split(x.Cond, false, &f)
+			visitCalls(x.Cond, conds)
+			walk(x.Body, t)
+			if x.Else != nil {
+				walk(x.Else, f)
+			}
+		case *ast.ForStmt:
+			walk(x.Body, conds)
+		case *ast.RangeStmt:
+			walk(x.Body, conds)
+		case *ast.SwitchStmt:
+			for _, cs := range x.Body.List {
+				for _, s := range cs.(*ast.CaseClause).Body {
+					walk(s, conds)
+				}
+			}
+		case *ast.LabeledStmt:
+			walk(x.Stmt, conds)
+		case ast.Stmt:
+			visitCalls(x, conds)
+		}
+	}
+	walk(fd.Body, nil)
+	r.Count("E9.adjacent-always-tested", n)
+	r.Floor("E9.adjacent-always-tested", 3)
 }
